@@ -9,6 +9,7 @@ from ural.is_url import is_url
 
 _HTTP = re.compile(r"^https?://", re.I)
 _PROTO = re.compile(r"^[a-zA-Z]{0,64}:?//")
+_ABSOLUTE = re.compile(r"^[a-zA-Z]{1,64}://")
 
 
 def str_and_bytes_agree(doc):
@@ -63,7 +64,16 @@ def single_href_is_resolved(base, href, canonicalize, strip_fragment):
     h = href.strip()
     if not h or not should_follow_href(h):
         return links == []
-    target = h if _PROTO.match(h) else urljoin(canonicalize_url(base, strip_fragment=strip_fragment) if canonicalize else base, h)
+    if _ABSOLUTE.match(h):
+        target = h
+    elif _PROTO.match(h) and not h.startswith("//"):
+        return True           # 'L//x', '://x': ural reads a protocol where there is no ':'; neither absolute nor relative
+    else:
+        # relative reference, '//host/path' (relative to the protocol of the base) included
+        try:
+            target = urljoin(canonicalize_url(base, strip_fragment=strip_fragment) if canonicalize else base, h)
+        except ValueError:
+            return links == []
     ok = is_url(target, require_protocol=True, tld_aware=True, allow_spaces_in_path=True, only_http_https=True)
     if canonicalize and ok:
         target = canonicalize_url(target, strip_fragment=strip_fragment)
